@@ -131,6 +131,11 @@ func outCase(col *Collector, s outSpec, tag string) {
 		// compared with the Lean model: the list of payloads handed to the sink
 		cs.Line = "prefixed " + hexList(s.chunks[0])
 	}
+	for i := range tasks {
+		if !bytes.Equal(tasks[i].Log.Stdout.Bytes(), s.streams[i]) && cs.Fail == "" {
+			cs.Fail, cs.Sig = fmt.Sprintf("task w%d: the recorded output (%d bytes) differs from what the task wrote (%d bytes) under format %s", i, tasks[i].Log.Stdout.Len(), len(s.streams[i]), s.format), "c19-recorded-result"
+		}
+	}
 	switch s.format {
 	case output.FormatRaw:
 		// raw forwards the bytes unchanged and in order (per writer; with one writer: exactly)
